@@ -24,9 +24,10 @@ PROP_MODULES = {
     'C17': ['props.c17'],
     'C11': ['props.c11'],
     'C18': ['props.step'],
-    'C01': ['props.step'], 'C02': ['props.step'], 'C03': ['props.step'], 'C06': ['props.step'], 'C07': ['props.step'], 'C09': ['props.step'], 'C12': ['props.step'],
+    'C01': ['props.step'], 'C02': ['props.step'], 'C03': ['props.step'], 'C06': ['props.step'], 'C07': ['props.step'], 'C09': ['props.step'], 'C12': ['props.c12'],
     'C19': ['props.step'],
-    'C05': ['props.step'],
+    'C05': ['props.c05'],
+    'C08': ['props.c08'],
     'C10': ['props.c10'],
     'C04': ['props.step'],
 }
